@@ -86,7 +86,7 @@ func (c *Cond) Signal() {
 	var ch chan struct{}
 	if n := len(c.waiters); n > 0 {
 		i := 0
-		if s := zsim.Cur(); s != nil && n > 1 {
+		if s := zsim.Cur(); s != nil && n > 1 && !s.PassThrough() {
 			i = s.Choose(n)
 		}
 		ch = c.waiters[i]
